@@ -48,14 +48,14 @@ type c30PeerVariant struct {
 	notAfter time.Time
 	addr     netip.Addr
 	fp       string
-	results  [2]*handshake.Result // per local certificate variant
+	results  [4]*handshake.Result // per local certificate variant
 }
 
 var (
 	c30Once     sync.Once
 	c30CAs      [2]cert.Certificate
 	c30CAAfter  [2]time.Time
-	c30MyCS     [2]*CertState
+	c30MyCS     [4]*CertState // 0,1: v2 certificate and its re-issue; 2,3: a v1-only node, certificate and re-issue
 	c30Variants []*c30PeerVariant
 	c30MyAddr   = netip.MustParseAddr("10.30.0.5")
 	c30PeerAddr = []netip.Addr{netip.MustParseAddr("10.30.0.1"), netip.MustParseAddr("10.30.0.7"), netip.MustParseAddr("10.30.0.9")}
@@ -108,6 +108,27 @@ func c30Setup() {
 			panic(err)
 		}
 		c30MyCS[1] = mkCS(reissued, myPrivPEM)
+		// the same node as a v1-only node (it cannot answer a v2 peer in kind): certificate and re-issue
+		mkCS1 := func(c cert.Certificate, privPEM []byte) *CertState {
+			priv, _, _, err := cert.UnmarshalPrivateKeyFromPEM(privPEM)
+			if err != nil {
+				panic(err)
+			}
+			cs, err := newCertState(cert.Version1, c, nil, false, cert.Curve_CURVE25519, priv, "aes")
+			if err != nil {
+				panic(err)
+			}
+			return cs
+		}
+		for i, na := range []time.Time{c30CAAfter[0], c30CAAfter[0].Add(-time.Hour)} {
+			tbs1 := &cert.TBSCertificate{Version: cert.Version1, Curve: cert.Curve_CURVE25519, Name: "me", Networks: myNet,
+				NotBefore: before, NotAfter: na, PublicKey: myPub}
+			c1, err := tbs1.Sign(c30CAs[0], cert.Curve_CURVE25519, caKeys[0])
+			if err != nil {
+				panic(err)
+			}
+			c30MyCS[2+i] = mkCS1(c1, myPrivPEM)
+		}
 
 		type spec struct {
 			ca    int
@@ -121,8 +142,8 @@ func c30Setup() {
 					fmt.Sprintf("peer%d", p), before, na, []netip.Prefix{netip.PrefixFrom(addr, 24)}, nil, nil)
 				pcs := mkCS(pc, privPEM)
 				v := &c30PeerVariant{peer: p, ca: s.ca, notAfter: na, addr: addr}
-				for mine := 0; mine < 2; mine++ {
-					im, err := handshake.NewMachine(cert.Version2, c30MyCS[mine].GetCredential, verifier, func() (uint32, error) { return 1, nil }, true, header.HandshakeIXPSK0)
+				for mine := 0; mine < 4; mine++ {
+					im, err := handshake.NewMachine(c30MyCS[mine].DefaultVersion(), c30MyCS[mine].GetCredential, verifier, func() (uint32, error) { return 1, nil }, true, header.HandshakeIXPSK0)
 					if err != nil {
 						panic(err)
 					}
@@ -248,6 +269,7 @@ func c30NewWorld(rt *rapid.T) *c30World {
 	w := &c30World{rt: rt, hm: hm, hsm: hsm, lh: lh, cm: cm, f: f, conn: conn, now: c30Base,
 		lists: map[netip.Addr][]*c30Tun{}, blocked: map[string]bool{}, cas: [2]bool{true, true},
 		timeout: 10 * time.Minute, decisions: map[string]bool{}}
+	w.mine = rapid.IntRange(0, 3).Draw(rt, "localVariant")
 	w.applyPKI()
 	return w
 }
@@ -288,7 +310,7 @@ func (w *c30World) addTunnel() {
 	}
 	mine := w.mine
 	if rapid.IntRange(0, 3).Draw(rt, "oldcert") == 0 {
-		mine = 1 - mine // a tunnel that was built before the last local certificate reload
+		mine = (mine + rapid.IntRange(1, 3).Draw(rt, "oldVariant")) % 4 // a tunnel that was built before the last local certificate reload
 	}
 	cs, err := newConnectionStateFromResult(v.results[mine])
 	if err != nil {
@@ -462,7 +484,7 @@ func (w *c30World) perturb() {
 		w.logf("CA reload: trusted=%v", w.cas)
 		w.applyPKI()
 	case "localcert":
-		w.mine = 1 - w.mine
+		w.mine = (w.mine + rapid.IntRange(1, 3).Draw(rt, "variantStep")) % 4
 		w.logf("local certificate reload -> variant %d", w.mine)
 		w.applyPKI()
 	case "promote":
